@@ -40,13 +40,16 @@ class RKAdaptiveStepSolver(object):
         self.yshape = y0.shape
         self.y0 = y0.reshape(-1)
 
+        # the functions below must not refer to self, otherwise the solver
+        # (and the tensors it holds) is kept alive by a reference cycle
+        yshape = y0.shape
         direction = ts[1] - ts[0]
         if direction < 0:
             self.ts = -ts
-            self.func = lambda t, y: -fcn(-t, y.reshape(self.yshape), *params).reshape(-1)
+            self.func = lambda t, y: -fcn(-t, y.reshape(yshape), *params).reshape(-1)
         else:
             self.ts = ts
-            self.func = lambda t, y: fcn(t, y.reshape(self.yshape), *params).reshape(-1)
+            self.func = lambda t, y: fcn(t, y.reshape(yshape), *params).reshape(-1)
         self.dtype = y0.dtype
         self.device = y0.device
         n = torch.numel(y0)
